@@ -39,8 +39,8 @@ def run(ctx, replay=None):
                                "broken": ctx.proof_broken["where"], "log": ctx.proof_broken["log"]})
     cov.update({"evaluations": probes, "distinct_nontrivial": probes, "exhaustive": True,
                 "rule": "all 16 duplicate-free ordered lists over the three service names x 3 modes (router built before the NRF registration sets OAuth2Required, "
-                        "as at start-up; flag set before the router is built; flag set with no NRF certificate configured) x every (method, path) of Engine.Routes() x 7 bad-token kinds "
-                        "(absent, garbage, alg none, HS256, RS512 foreign key, RS256 right key, missing Bearer prefix), real RSA NRF key, real processor behind the routes; "
+                        "as at start-up; flag set before the router is built; flag set with no NRF certificate configured) x every (method, path) of Engine.Routes() x 11 bad-token kinds "
+                        "(absent, garbage, alg none, HS256, RS512 foreign key, RS256 right key, missing Bearer prefix, Basic scheme, foreign-key token under scheme Token, Bearer without credentials, one word), real RSA NRF key, real processor behind the routes; "
                         "refused = status 401, body is the single problem object, no handler wrote after the check, planted subscriber context untouched, no notification sent; "
                         "positive control: a token signed by the NRF key passes on the greeting routes",
                 "samples": [["GET", "/nchf-convergedcharging/v3/", "startup-order/absent", 401], ["PUT", "/nchf-convergedcharging/v3/recharging/:rechargingInfo", "no-nrf-certificate/rs512-wrong-key", 401]],
